@@ -67,6 +67,7 @@ RULES = {
     "R-LOAD-FACTOR": ("rules.round3", "r_load_factor"),
     "R-ERASE-WINDOW": ("rules.round3", "r_erase_window"),
     "R-PROBE-INDEX": ("rules.round3", "r_probe_index"),
+    "R-CTRL-GEOMETRY": ("rules.round3", "r_ctrl_geometry"),
     "R-ACCT": ("rules.acct", "r_acct"),
     "R-CTRL-WRITE": ("rules.acct", "r_ctrl_write"),
     "R-ERASE-BEFORE": ("rules.ownership", "r_erase_before"),
@@ -362,7 +363,7 @@ for _p, _rs in _ROUND3.items():
 # shared mechanisms, so the core-table rules are attached to every property whose statement quantifies over table behaviour.
 CORE_TABLE = ["R-PROBE-STOP", "R-PROBE-STEP", "R-SAME-GROUP", "R-CTRL-WRITE", "R-ACCT", "R-SLOT-PROVENANCE", "R-SLOT-FRESH", "R-BUCKET-FRESH",
               "R-RESERVE-GUARD", "R-REHASH-DECISION", "R-REHASH-LOOP", "R-SWEEP-RANGE", "R-RESIZE-TARGET", "R-ZST-PTR", "R-GROUP-DEFS",
-              "R-TAG-CONSTS", "R-BITMASK-DEFS", "R-CURSOR-STATE", "R-ITEMS-GUARD", "R-ERASE-BEFORE", "R-HASH-TAINT", "R-INDEX-BOUNDED", "R-ARG-ORDER", "R-DROPGLUE", "R-ERASE-WINDOW", "R-PROBE-INDEX"]
+              "R-TAG-CONSTS", "R-BITMASK-DEFS", "R-CURSOR-STATE", "R-ITEMS-GUARD", "R-ERASE-BEFORE", "R-HASH-TAINT", "R-INDEX-BOUNDED", "R-ARG-ORDER", "R-DROPGLUE", "R-ERASE-WINDOW", "R-PROBE-INDEX", "R-CTRL-GEOMETRY"]
 for _p in ("C01", "C02", "C05", "C06", "C07", "C09", "C10", "C11", "C13", "C14", "C15"):
     _added = []
     for _r in CORE_TABLE:
